@@ -85,12 +85,15 @@ CLAIMED.update({
     "C12": _c("Proof: Props/C12.v shows that every successful addTier/removeTier/renameTier/replaceTier leaves the tier list the plain "
               "ordered-list model prescribes (Python list.insert index semantics included), that names stay unique and the invariant "
               "holds along every history, that duplicates are rejected, that the span only widens, and that Textgrid.crop acts "
-              "tier-wise with all tiers sharing the textgrid's span for strict/truncated.  Mutator histories (exhaustive to depth 2/3 "
-              "over a small universe plus random ones) are replayed on real Textgrid objects and compared after every call with the "
-              "model and the list model inside Coq; the tier-wise clauses for eraseRegion/insertSpace/editTimestamps and validate() "
-              "are compared in the harness against the tier-level operations.",
-              "Coq proof (refinement to a list model, invariant by induction over histories) + in-Coq differential correspondence on histories", "5/C12",
-              "partial: tier-wise equality for eraseRegion/insertSpace/editTimestamps and mergeTiers are evaluated, not proved."),
+              "tier-wise with all tiers sharing the textgrid's span for strict/truncated; that eraseRegion, insertSpace and "
+              "editTimestamps act tier-wise with the same names in the same order, that eraseRegion (region inside the span) and "
+              "insertSpace return valid textgrids (every tier well-formed with exactly the new span) on which validate() is True, "
+              "and the shape of mergeTiers' result.  Mutator histories (exhaustive to depth 2/3 over a small universe plus random "
+              "ones) are replayed on real Textgrid objects and compared after every call with the model and the list model inside "
+              "Coq; the textgrid-level edits are compared as whole textgrids with their models inside Coq and validate() is "
+              "evaluated on every result.",
+              "Coq proof (refinement to a list model, invariant by induction over histories, span rules of the tier operations) + in-Coq differential correspondence on histories", "5/C12",
+              "the union inside mergeTiers is C10's; its label order is evaluated, not proved."),
     "C13": _c("Proof (partial): Props/C13.v shows that the Textgrid mutators are all-or-nothing on every state satisfying the "
               "invariant, including replaceTier's rollback, for a model that follows the source's order of checks and writes; "
               "implementation state after failing calls is compared inside Coq.  The clauses 'copy-returning operations leave "
